@@ -1,6 +1,9 @@
 package termin
 
-import "verif/sim/core"
+import (
+	"verif/sim/core"
+	"verif/sim/world"
+)
 
 func run(c *core.Ctx) {
 	switch c.Scenario {
@@ -14,6 +17,8 @@ func run(c *core.Ctx) {
 		RunSaga(c)
 	case "optimizer-without-cap":
 		RunNoCap(c)
+	case "read-only-sparse-vectors":
+		world.RunSparseConst(c)
 	default:
 		panic("unknown scenario " + c.Scenario)
 	}
@@ -30,6 +35,7 @@ func init() {
 			{Name: "caller-misuse", Weight: 3, Faulty: true},
 			{Name: "saga-without-cap", Weight: 1},
 			{Name: "optimizer-without-cap", Weight: 1, Faulty: true},
+			{Name: "read-only-sparse-vectors", Weight: 1},
 		},
 		Run:      run,
 		Probes:   []core.FindingProbe{{ID: "C20-F1", Run: ProbeInSituShape}, {ID: "C20-F2", Run: ProbeDeterminantCost}},
